@@ -821,7 +821,20 @@ def pinned_descriptions():
                     {"s": "add_inst", "R": ["#CO"], "P": ["CO"], "pseudo": [], "alpha": 1.0, "rtype": 201, "idx": 3},
                     {"s": "render", "solver": "cvode", "method": "dense", "device": "cpu", "pattern": False},
                     {"s": "to_code", "solver": "cvode", "method": "sparse", "device": "cpu"}]}
-    return [p1, p2, p3, p4, p5, p6, p7]
+    # an ice network that is rendered before its grain charge states arrive (the grain density is a free
+    # parameter without them and a derived sum with them)
+    r8 = {"s": "render", "solver": "cvode", "method": "dense", "device": "cpu", "pattern": False}
+    p8 = {"id": "pinned-grains-later-0", "family": "pinned-grains-later", "entry": "api", "name": "simproj", "files": {},
+          "net": dict(MIXED, grain_model="hh93"),
+          "steps": [{"s": "new"},
+                    {"s": "add_inst", "R": ["C", "O"], "P": ["CO"], "pseudo": [], "alpha": 1.1e-10, "rtype": 100, "idx": -1, "tmin": 10.0, "tmax": -1.0},
+                    {"s": "add_inst", "R": ["CO"], "P": ["#CO"], "pseudo": [], "alpha": 1.0, "rtype": 200, "idx": -1, "tmin": 10.0, "tmax": -1.0},
+                    {"s": "add_inst", "R": ["#CO"], "P": ["CO"], "pseudo": [], "alpha": 1.0, "rtype": 201, "idx": -1, "tmin": 10.0, "tmax": -1.0},
+                    dict(r8),
+                    {"s": "add_inst", "R": ["e-", "GRAIN0"], "P": ["GRAIN-"], "pseudo": [], "alpha": 1.0, "rtype": 221, "idx": -1, "tmin": 10.0, "tmax": -1.0},
+                    {"s": "add_inst", "R": ["C+", "GRAIN-"], "P": ["C", "GRAIN0"], "pseudo": [], "alpha": 1.0, "rtype": 220, "idx": -1, "tmin": 10.0, "tmax": -1.0},
+                    dict(r8), {"s": "to_code", "solver": "cvode", "method": "sparse", "device": "cpu"}]}
+    return [p1, p2, p3, p4, p5, p6, p7, p8]
 
 
 def build_library(seed, tier):
